@@ -12,8 +12,7 @@ Lemma bind_ok {A B} (r : res derr A) (f : A -> res derr B) v :
   bind r f = Ok v -> exists a, r = Ok a /\ f a = Ok v.
 Proof. destruct r as [a|e]; cbn; intros Hb; [exists a; auto | discriminate]. Qed.
 
-Ltac bind_inv Hb :=
-  let a := fresh "a" in let E := fresh "E" in let Hn := fresh "Hb" in
+Tactic Notation "bind_inv" hyp(Hb) "as" ident(a) ident(E) ident(Hn) :=
   apply bind_ok in Hb; destruct Hb as (a & E & Hn).
 
 Lemma dec_seq_single {A} (dec : A -> json -> res derr A) j init :
@@ -166,11 +165,14 @@ Qed.
 (* hex, signatures, keys                                               *)
 (* ------------------------------------------------------------------ *)
 
-Lemma lower_hex_char_idem c d : lower_hex_char c = Some d -> lower_hex_char d = Some d.
+Lemma lower_hex_char_idem0 c :
+  match lower_hex_char c with Some d => lower_hex_char d = Some d | None => True end.
 Proof.
-  destruct c as [[|] [|] [|] [|] [|] [|] [|] [|]]; vm_compute; intros Hc;
-    try discriminate; injection Hc as <-; reflexivity.
+  destruct c as [[|] [|] [|] [|] [|] [|] [|] [|]]; vm_compute; first [exact I | reflexivity].
 Qed.
+
+Lemma lower_hex_char_idem c d : lower_hex_char c = Some d -> lower_hex_char d = Some d.
+Proof. intros Hc. pose proof (lower_hex_char_idem0 c) as Hi. rewrite Hc in Hi. exact Hi. Qed.
 
 Lemma lower_hex_idem s h : lower_hex s = Some h -> lower_hex h = Some h.
 Proof.
@@ -444,21 +446,21 @@ Qed.
 Theorem C15_decode_wf_output j o : unmarshal_output j = Ok o -> wf_output o.
 Proof.
   unfold unmarshal_output. destruct j; try discriminate. intros Hb.
-  bind_inv Hb. bind_inv Hb0. bind_inv Hb1. injection Hb2 as <-.
+  bind_inv Hb as a E Hb0. bind_inv Hb0 as a0 E0 Hb1. bind_inv Hb1 as a1 E1 Hb2. injection Hb2 as <-.
   unfold wf_output. cbn. apply u64_two64. eapply field_uint_ok; [|exact E1]. reflexivity.
 Qed.
 
 Theorem C15_decode_wf_input_info j p : unmarshal_input_info j = Ok p -> wf_input_info p.
 Proof.
   unfold unmarshal_input_info. destruct j; try discriminate. intros Hb.
-  bind_inv Hb. bind_inv Hb0. injection Hb1 as <-.
+  bind_inv Hb as a E Hb0. bind_inv Hb0 as a0 E0 Hb1. injection Hb1 as <-.
   unfold wf_input_info. cbn. apply u16_bound. eapply field_uint_ok; [|exact E]. reflexivity.
 Qed.
 
 Theorem C15_decode_wf_input j i : unmarshal_input on_curve j = Ok i -> wf_input i.
 Proof.
   unfold unmarshal_input. destruct j; try discriminate. intros Hb.
-  bind_inv Hb. bind_inv Hb0. bind_inv Hb1. bind_inv Hb2. bind_inv Hb3. bind_inv Hb4.
+  bind_inv Hb as a E Hb0. bind_inv Hb0 as a0 E0 Hb1. bind_inv Hb1 as a1 E1 Hb2. bind_inv Hb2 as a2 E2 Hb3. bind_inv Hb3 as a3 E3 Hb4. bind_inv Hb4 as a4 E4 Hb5.
   injection Hb5 as <-. unfold wf_input. cbn. repeat split.
   - apply u16_bound. eapply field_uint_ok; [|exact E]. reflexivity.
   - eapply dec_pubkey_ok; exact E3.
@@ -469,7 +471,7 @@ Qed.
 Theorem C15_decode_wf_utxo j u : unmarshal_utxo j = Ok u -> wf_utxo u.
 Proof.
   unfold unmarshal_utxo. destruct j; try discriminate. intros Hb.
-  bind_inv Hb. bind_inv Hb0. bind_inv Hb1. bind_inv Hb2. bind_inv Hb3. bind_inv Hb4.
+  bind_inv Hb as a E Hb0. bind_inv Hb0 as a0 E0 Hb1. bind_inv Hb1 as a1 E1 Hb2. bind_inv Hb2 as a2 E2 Hb3. bind_inv Hb3 as a3 E3 Hb4. bind_inv Hb4 as a4 E4 Hb5.
   injection Hb5 as <-. unfold wf_utxo, wf_output. cbn. repeat split.
   - apply u16_bound. eapply field_uint_ok; [|exact E2]. reflexivity.
   - apply u64_two64. eapply field_uint_ok; [|exact E4]. reflexivity.
@@ -490,9 +492,9 @@ Qed.
 Theorem C15_decode_wf_tx j t : unmarshal_tx on_curve H j = Ok t -> wf_tx t.
 Proof.
   unfold unmarshal_tx. destruct j; try discriminate. intros Hb.
-  bind_inv Hb. bind_inv Hb0. bind_inv Hb1. bind_inv Hb2. bind_inv Hb3. bind_inv Hb4.
+  bind_inv Hb as a E Hb0. bind_inv Hb0 as a0 E0 Hb1. bind_inv Hb1 as a1 E1 Hb2. bind_inv Hb2 as a2 E2 Hb3. bind_inv Hb3 as a3 E3 Hb4. bind_inv Hb4 as a4 E4 Hb5.
   destruct (negb (String.eqb (gen_id H a3 a4 a2) a)) eqn:Eid; [discriminate|].
-  bind_inv Hb5. injection Hb6 as <-. destruct a5.
+  bind_inv Hb5 as a5 E5 Hb6. injection Hb6 as <-. destruct a5.
   apply negb_false_iff, String.eqb_eq in Eid.
   unfold wf_tx, wf_idbody. cbn. repeat split.
   - eapply no_nulls_ok; [|exact E3]. eapply field_slice_ptr_ok; [|exact E0].
@@ -513,7 +515,8 @@ Proof.
   induction n as [|n IH]; intros cur l p Hc Hd.
   - cbn in Hd. injection Hd as <-. split; [reflexivity | constructor].
   - cbn [dec_arr_u8] in Hd. destruct l as [|j r].
-    + injection Hd as <-. split; [apply repeat_length|].
+    + injection Hd as <-. change (0%N :: repeat 0%N n) with (repeat 0%N (S n)).
+      split; [apply repeat_length|].
       apply Forall_forall. intros x Hx. apply repeat_spec in Hx. subst x. lia.
     + destruct (dec_uint 256 (hd 0%N cur) j) as [b|e] eqn:Eb; [|discriminate].
       destruct (dec_arr_u8 n (tl cur) r) as [bs|e] eqn:Ebs; [|discriminate].
@@ -529,7 +532,7 @@ Qed.
 Theorem C15_decode_wf_block j b : unmarshal_block on_curve H j = Ok b -> wf_block b.
 Proof.
   unfold unmarshal_block. destruct j; try discriminate. intros Hb.
-  bind_inv Hb. bind_inv Hb0. bind_inv Hb1. bind_inv Hb2. bind_inv Hb3. bind_inv Hb4.
+  bind_inv Hb as a E Hb0. bind_inv Hb0 as a0 E0 Hb1. bind_inv Hb1 as a1 E1 Hb2. bind_inv Hb2 as a2 E2 Hb3. bind_inv Hb3 as a3 E3 Hb4. bind_inv Hb4 as a4 E4 Hb5.
   injection Hb5 as <-. unfold wf_block, txs. cbn.
   assert (Hp : length a = 32%nat /\ Forall (fun x => (x < 256)%N) a).
   { unfold dec_field in E.
